@@ -390,7 +390,17 @@ def _run_case(case):
         else:
             tarr = np.array(times, dtype=np.float64)
         kw = {} if i.get('symdef') else {'symmetrize': i['sym']}
-        out = correlograms(tarr, _labels(i['lab'], i['ldt']),
+        lab = _labels(i['lab'], i['ldt'])
+        if len(times) % 2 == 1 and not isinstance(tarr, list):
+            # the same array objects have already been through a call (the other symmetrize setting): a correlogram
+            # is a function of the spike times it is given, so an earlier call on the caller's arrays must not change
+            # what a later call on them returns (seeded change C15-m6 scaled a float64 time array in place)
+            try:
+                correlograms(tarr, lab, cluster_ids=i['ids'], sample_rate=fr, bin_size=float(b), window_size=float(w),
+                             symmetrize=not i['sym'])
+            except Exception:  # noqa
+                pass
+        out = correlograms(tarr, lab,
                            cluster_ids=i['ids'], sample_rate=fr, bin_size=float(b), window_size=float(w), **kw)
         out = np.asarray(out)
         if out.ndim != 3 or out.dtype.kind not in 'iu':
